@@ -1,11 +1,18 @@
 (* C05: predictive search returns exactly the keys that start with the query, ascending, with lookup's ids. *)
-From X Require Import Base Arr Dac Trie Spec Wf IfaceQuery All Examples ExampleFacts.
+From X Require Import Builder IfaceBuild Base Arr Dac Trie Spec Wf IfaceQuery All AllBuild Examples ExampleFacts.
 Local Open Scope N_scope.
 
 Theorem C05_predictive_search : forall v L P K, wf_for v L P K -> forall q, bytes_ok q = true ->
   (forall n, pred_calls P (mk_predictive q) n = Ok (abs_calls (with_ids P (spec_completions K q)) n)) /\
   predictive_search P q = Ok (with_ids P (spec_completions K q)).
 Proof. exact predictive_thm. Qed.
+
+(* headline: for EVERY valid key list and EVERY byte string q *)
+Theorem C05_for_all_valid_K : forall v tbl K req, valid_keys K = true -> small_keys K -> perm_okb tbl = true ->
+  exists P, build v tbl K req = Ok P /\ forall q, bytes_ok q = true ->
+  (forall n, pred_calls P (mk_predictive q) n = Ok (abs_calls (with_ids P (spec_completions K q)) n)) /\
+  predictive_search P q = Ok (with_ids P (spec_completions K q)).
+Proof. exact headline_predictive. Qed.
 
 Example C05_nonvacuous : forall v, exists L P, ex_logical v = Ok L /\ wf_for v L P ex_keys.
 Proof. exact ex_wf_for. Qed.
@@ -16,3 +23,4 @@ Example C05_example : match ex_trie V16 with
 Proof. vm_compute. split; reflexivity. Qed.
 
 Print Assumptions C05_predictive_search.
+Print Assumptions C05_for_all_valid_K.
